@@ -184,6 +184,7 @@ def check_find(pid, tier, seed):
     rng = random.Random(seed * 7919 + int(pid[1:]))
     vec = zone_vectors(res, tier, seed, {"find"}, pid)
     if pid == "C17":
+        mc_system(res, tier)
         # turn every search vector into buffer-based searches with every buffer length 0..4 (k <= 4 in the scaled model)
         v2 = vec + ".n"
         with open(v2, "w") as f:
@@ -204,6 +205,13 @@ def check_find(pid, tier, seed):
     return res.finish()
 
 
+def mc_system(res, tier):
+    """Bounded exploration of client sessions of TzRs.tla: all interleavings of API calls over small menus."""
+    consts = {k: f"<- {k}C" for k in ("Zones", "Instants", "LocalTimes", "Files", "TzValues", "Dirs", "Vfs")}
+    consts["MaxSteps"] = 3 if tier == "quick" else 4
+    res.add_mc(run_mc("MC_TzRs", consts, invariants=("Invariants",), workers=C.NCPU, timeout=6000, xmx="12g", extra_cfg="PROPERTY FrameOK\nPROPERTY BufFrame\n"))
+
+
 def check_C14(tier, seed):
     res = Result("C14", tier, seed, "model_checking")
     binary = need_binary(res)
@@ -211,6 +219,7 @@ def check_C14(tier, seed):
     vecraw = os.path.join(C.OUT, "C14-vectors.ndjson")
     mc_calendar(res, tier, seed, vecraw)
     os.remove(vecraw)
+    mc_system(res, tier)
     q = tier == "quick"
     run_pipeline(res, binary, "constructors", gen_lines=gens.gen_c14(rng, 20000 if q else 300000), nshards=8 if q else 16)
     run_pipeline(res, binary, "find-entries", gen_lines=gens.gen_find_zones(rng, 60 if q else 1500), nshards=8 if q else 16)
